@@ -198,6 +198,20 @@ func checkC05(c *km.Ctx) {
 	// they reach the stored profile: gob drops unexported fields without a word
 	checkGobStructs(c, "R-C05-4")
 	checkChallengeFresh(c, "R-C05-4")
+	// one presentation of a TOTP code raises one session: the read-test-update of the per-user validation slot is
+	// one critical section (C14's obligations on the gate, as this property's own)
+	if r.Remap == nil {
+		r.Remap = func(rule, fn, construct string) (string, bool) {
+			if rule == "R-C14-3" && (strings.Contains(construct, "one critical section") || construct == "last-check time updated" || construct == "spacing constant") {
+				return "R-C05-4", true
+			}
+			return "", false
+		}
+		saveExplain, saveND, saveAs := r.Explain, r.NotDecided, r.Assume
+		checkC14(c)
+		r.Explain, r.NotDecided, r.Assume = saveExplain, saveND, saveAs
+		r.Remap = nil
+	}
 	checkPushRecords(c)
 	checkChallengeAtomic(c, km.NewLockSets(), "R-C05-4")
 }
